@@ -89,8 +89,133 @@ func shareCase(in []byte) string {
 	return "ok"
 }
 
+// moverCase: lookups concurrent with subscribers that MOVE between a direct subscription and a share group, or hand the
+// single seat of a share group to one another. The result of such a lookup is not a function of one state, but three facts
+// follow from "a lookup sees one state of the index" whatever the interleaving: the mover M, who subscribes the new filter
+// before it gives up the old one, holds a matching subscription at every instant and must be in every result; A and B are
+// never members of group gs at the same time and must never both be in a result; the static direct subscribers are always
+// there and nobody else ever is.
+func moverCase(in []byte) string {
+	parts := strings.Split(string(in), ",")
+	seed, _ := strconv.ParseInt(parts[0], 10, 64)
+	ci, _ := strconv.Atoi(parts[1])
+	r := vk.NewRand(seed, "C01mover", ci)
+	mqtt := ci%2 == 1
+	trie := newTrie(mqtt)
+	lv := []string{litLevels[r.Intn(len(litLevels))], litLevels[r.Intn(len(litLevels))]}
+	direct := filt{levels: lv}
+	viaGroup := filt{levels: lv, group: "gm"}
+	seat := filt{levels: lv, group: "gs"}
+	parent := filt{levels: lv[:1]}
+	static := map[int]bool{}
+	for i := 3; i < 3+r.Range(1, 4); i++ {
+		f := direct
+		if !mqtt && r.Bool() {
+			f = parent // a prefix matches in emitter mode
+		}
+		trie.Subscribe(f.ssid(), subPool[i])
+		static[i] = true
+	}
+	const M, A, B = 0, 1, 2
+	trie.Subscribe(direct.ssid(), subPool[M])
+	trie.Subscribe(seat.ssid(), subPool[A])
+	stop := make(chan struct{})
+	var wg, lw sync.WaitGroup
+	wg.Add(2)
+	go func() { // the mover
+		defer wg.Done()
+		for {
+			select {
+			case <-stop:
+				return
+			default:
+			}
+			trie.Subscribe(viaGroup.ssid(), subPool[M])
+			trie.Unsubscribe(direct.ssid(), subPool[M])
+			trie.Subscribe(direct.ssid(), subPool[M])
+			trie.Unsubscribe(viaGroup.ssid(), subPool[M])
+		}
+	}()
+	go func() { // the seat of group gs changes hands
+		defer wg.Done()
+		for {
+			select {
+			case <-stop:
+				return
+			default:
+			}
+			trie.Unsubscribe(seat.ssid(), subPool[A])
+			trie.Subscribe(seat.ssid(), subPool[B])
+			trie.Unsubscribe(seat.ssid(), subPool[B])
+			trie.Subscribe(seat.ssid(), subPool[A])
+		}
+	}()
+	var mu sync.Mutex
+	bad := ""
+	for g := 0; g < 6; g++ {
+		lw.Add(1)
+		go func() {
+			defer lw.Done()
+			for k := 0; k < 6000; k++ {
+				res := trie.Lookup(toSsid(0, lv), nil)
+				R := map[int]bool{}
+				dup := false
+				for _, s := range res {
+					for i, p := range subPool {
+						if s != nil && p.id == s.ID() {
+							if R[i] {
+								dup = true
+							}
+							R[i] = true
+						}
+					}
+				}
+				why := ""
+				switch {
+				case !R[M]:
+					why = "the mover holds a matching subscription at every instant (it subscribes the share-group filter before it drops the direct one and vice versa) but is missing from a lookup"
+				case R[A] && R[B]:
+					why = "subscribers A and B are never members of the share group at the same time but one lookup returned both"
+				case dup:
+					why = "a subscriber appears twice in one lookup result"
+				}
+				for i := range static {
+					if !R[i] && why == "" {
+						why = fmt.Sprintf("static direct subscriber %s missing from a lookup", subPool[i].id)
+					}
+				}
+				for i := range R {
+					if !static[i] && i != M && i != A && i != B && why == "" {
+						why = fmt.Sprintf("subscriber %s without any subscription is in a lookup result", subPool[i].id)
+					}
+				}
+				if why != "" {
+					mu.Lock()
+					if bad == "" {
+						bad = fmt.Sprintf("mqtt=%v channel %s: %s", mqtt, strings.Join(lv, "/"), why)
+					}
+					mu.Unlock()
+					return
+				}
+			}
+		}()
+	}
+	lw.Wait()
+	close(stop)
+	wg.Wait()
+	if bad != "" {
+		return "bad: " + bad
+	}
+	return "ok"
+}
+
 func TestIsolateChild(t *testing.T) {
-	if !isolate.ChildMain(map[string]isolate.Handler{"share": shareCase}) {
+	if !isolate.ChildMain(map[string]isolate.Handler{"share": func(in []byte) string {
+		if strings.HasSuffix(string(in), ",mover") {
+			return moverCase(in)
+		}
+		return shareCase(in)
+	}}) {
 		t.Skip("child only")
 	}
 }
@@ -100,13 +225,18 @@ func TestC01Share(t *testing.T) {
 	defer rec.Finish(t)
 	rec.Rule("case = a real Trie holding 40 static subscriptions (half of them in share groups g1/g2, members that also subscribe directly), 8 goroutines x 1500 concurrent lookups over 12 channels in a child process; " +
 		"every result must contain every direct matcher, nobody without a matching subscription, and exactly one member per share group with a matching member; a fatal error of the process is a violation; " +
+		"every other pair of cases instead has lookups (6 goroutines x 6000) concurrent with a subscriber that moves between a direct filter and a share group (always holding one: must be in every result) and two subscribers handing the single seat of a group to one another (never both in a result); " +
 		"non-trivial = every case (all have share groups); distinct = (seed, case)")
 	n := vk.N(24, 1500)
 	var ins [][]byte
 	var idx []int
 	for ci := 0; ci < n; ci++ {
 		if vk.Mine(ci) {
-			ins = append(ins, []byte(fmt.Sprintf("%d,%d", vk.Seed(), ci)))
+			if (ci/2)%2 == 1 { // every other pair of cases: movers instead of static subscriptions
+				ins = append(ins, []byte(fmt.Sprintf("%d,%d,mover", vk.Seed(), ci)))
+			} else {
+				ins = append(ins, []byte(fmt.Sprintf("%d,%d", vk.Seed(), ci)))
+			}
 			idx = append(idx, ci)
 		}
 	}
